@@ -293,6 +293,9 @@ func quoteLabel(r *hv.Rng, s string) string {
 			b.WriteRune(c)
 		case c < 0x20 || c == 0x7f:
 			fmt.Fprintf(&b, `\u%04x`, c)
+		case c == '$' || c == '%' || c == '{':
+			// written literally: the "$${" escape is recognised on the raw characters only
+			b.WriteRune(c)
 		default:
 			switch {
 			case r.Chance(0.1) && c <= 0xffff:
@@ -584,9 +587,9 @@ func relayout(r *hv.Rng, src string, feat map[string]int) (string, bool) {
 	}
 	type ctx int
 	const (
-		cExpr   ctx = iota // newlines ignored
-		cBrace             // object constructor / unknown brace: newlines significant
-		cTmpl              // template literal context: no gaps at all
+		cExpr  ctx = iota // newlines ignored
+		cBrace            // object constructor / unknown brace: newlines significant
+		cTmpl             // template literal context: no gaps at all
 	)
 	stack := []ctx{cExpr}
 	top := func() ctx { return stack[len(stack)-1] }
